@@ -247,8 +247,9 @@ theorem revert_keep {co : Bytes → Bool} {run : Run} {pre rest : List Child} {t
       · split at h <;>
         · simp only [Prod.mk.injEq] at h; obtain ⟨_, rfl, _, _⟩ := h
           intro k hk; simp only [Option.toList_some, List.mem_singleton] at hk; subst hk; exact ⟨hreg, rfl, rfl⟩
-    · simp only [Prod.mk.injEq] at h; obtain ⟨_, rfl, _, _⟩ := h
-      intro k hk; simp at hk
+    · split at h <;>
+      · simp only [Prod.mk.injEq] at h; obtain ⟨_, rfl, _, _⟩ := h
+        intro k hk; simp at hk
   · split at h
     · simp only [Prod.mk.injEq] at h; obtain ⟨_, rfl, _, _⟩ := h
       intro k hk
@@ -433,7 +434,8 @@ theorem sameClass_trans {a b c : Child} (h1 : sameClass a b = true) (h2 : sameCl
 /-- no two children with the same (name up to case, kind): what the `struct set` guarantees -/
 def ClassNoDup (cs : List Child) : Prop := cs.Pairwise (fun a b => sameClass a b = false)
 
-def childOf (e : RawEntry) : Child := { name := e.key, kind := e.kind, values := e.values }
+def childOf (e : RawEntry) : Child :=
+  { name := e.key, kind := e.kind, values := e.values, cached := scratchCache e.kind e.values }
 
 /-- entry `e` belongs to the class of child `c` -/
 def clsE (e : RawEntry) (c : Child) : Prop := ciEq e.key c.name = true ∧ e.kind = c.kind
@@ -537,7 +539,7 @@ theorem scratchInsert_spec {cs : List Child} (e : RawEntry) (hnd : ClassNoDup cs
     (∀ c ∈ cs, ¬ clsE e c → c ∈ scratchInsert cs e) := by
   unfold scratchInsert
   simp only []
-  have hn : ({ name := e.key, kind := e.kind, values := e.values } : Child) = childOf e := rfl
+  have hn : ({ name := e.key, kind := e.kind, values := e.values, cached := scratchCache e.kind e.values } : Child) = childOf e := rfl
   rw [hn]
   cases hany : cs.any (sameClass (childOf e)) with
   | true =>
